@@ -19,7 +19,9 @@ func NewSimpleQueue[T any](name string, tracer MetricsTracer[T]) *SimpleQueue[T]
 		name:    name,
 		metrics: tracer,
 		list:    list.New(),
-		signal:  make(chan struct{}),
+		// one slot: a signal sent while the consumer is between releasing the
+		// mutex and receiving must not be dropped (lost wake-up)
+		signal: make(chan struct{}, 1),
 	}
 }
 
